@@ -272,7 +272,9 @@ def parse_impl(lines):
             d = kv(l)
             st["V"].append({"name": l.split()[1], "act": int(d["act"]), "rc": int(d["rc"]), "awake": int(d["awake"]),
                             "apply": int(d["apply"]), "arc": int(d["arc"]), "x": hf(d["x"]), "fb": hf(d["fb"]),
-                            "fba": hf(d["fba"]), "f": hf(d["f"])})
+                            "fba": hf(d["fba"]), "f": hf(d["f"]), "ext": int(d.get("ext", "0")),
+                            "xr": hf(d["xr"]) if "xr" in d else None, "xa": hf(d["xa"]) if "xa" in d else None,
+                            "fr": hf(d["fr"]) if "fr" in d else None, "extk": hf(d["extk"]) if "extk" in d else None})
         elif l.startswith("MB "):
             d = kv(l)
             st["B"].append({"name": l.split()[1], "act": int(d["act"]), "rc": int(d["rc"]), "awake": int(d["awake"]),
@@ -744,6 +746,72 @@ def nonbiasing_scenario(r, k):
                        {"kind": "F", "tsf": 1, "vars": [0], "k": 0.0}], "it0": 0, "events": ev, "A": [0], "B": [1]}
 
 
+def ext_scenario(r, k):
+    """an extended-Lagrangian variable (factor n) with harmonicWalls (bypassExtendedLagrangian, fb_actual) and a harmonic
+    restraint (fb, acts on the extended coordinate), both with factor n; runs A+B, A (walls), B (harmonic) and 0 (no bias)"""
+    n = r.choice([1, 1, 2, 3])
+    v = {"tsf": n, "w": 1.0, "extra": ["extendedLagrangian on", "extendedFluctuation 0.5", "extendedTimeConstant 200",
+                                       "extendedTemp 300", "extendedLangevinDamping 0"],
+         "comps": [{"main": [0], "ref": [], "axis": 2, "coeff": 1.0, "np": 1}]}
+    biases = [{"kind": "W", "tsf": n, "vars": [0], "k": r.choice([1.0, 2.0, 4.0]), "centers": [dy(r, -1, 1, 2)]},
+              {"kind": "H", "tsf": n, "vars": [0], "k": r.choice([0.5, 1.0, 2.0]), "centers": [dy(r, -2, 2, 2)]}]
+    ev = []
+    for s_ in range(r.randint(3, 5) * n + 1):
+        ev.append(("S", [[0.0, 0.0, dy(r, -3, 3, 2)], [0.0, 0.0, 0.0]]))
+    return {"id": k, "family": "ext", "natoms": 2, "mass": [1.0, 1.0], "vars": [v], "biases": biases, "it0": 0,
+            "events": ev, "A": [0], "B": [1], "zero_run": True}
+
+
+def oracle_ext(run, sc, R):
+    """O8 (implementation alone, extended-Lagrangian variable): routing f = n_v k (x_ext - x) + fb_actual, fr = fb / n_v;
+    fb_actual = sum of n_b F_b over the bypassing biases evaluated at the ACTUAL value, fb = the same over the ordinary
+    biases at the extended coordinate; the walls' share of the atom force is the same with and without the restraint"""
+    nv = sc["vars"][0]["tsf"]
+    w = fr(sc["vars"][0]["w"])
+    for t_, sub in sc["_subsets"].items():
+        steps = R[t_]["steps"]
+        for s in range(first_error(steps)):
+            iv = steps[s]["V"][0]
+            if not iv["act"]:
+                continue
+            where = "scenario %d run %s step %d (it=%d)" % (sc["id"], t_, s, steps[s]["it"])
+            rep = lambda: replay_of(sc, {t_: sub}, {"step_index": s})
+            if not iv["ext"]:
+                run.mismatch("pipeline:ext-config", {"scenario": sc["id"], "run": t_}, iv["ext"], 1)
+                return
+            efba, efb = Fr(0), Fr(0)
+            for j in sub:
+                b = sc["biases"][j]
+                if steps[s]["it"] % b["tsf"] != 0:
+                    continue
+                kk = fr(b["k"])
+                if b["kind"] == "W":
+                    d = max(Fr(0), fr(iv["xa"]) - fr(b["centers"][0]))
+                    efba += b["tsf"] * (-kk / (w * w) * d)
+                else:
+                    efb += b["tsf"] * (-kk / (w * w) * (fr(iv["xr"]) - fr(b["centers"][0])))
+            if not close(iv["fba"], float(efba)) or not close(iv["fb"], float(efb)):
+                run.violation("pipeline:ext:bias-routing", "%s: fb=%r fb_actual=%r; factor*force of the ordinary biases at the extended coordinate is %r, of the bypassing biases at the actual value %r"
+                              % (where, iv["fb"], iv["fba"], float(efb), float(efba)), rep())
+                return
+            if not close(iv["f"], nv * iv["extk"] * (iv["xr"] - iv["xa"]) + iv["fba"]) or not close(iv["fr"], iv["fb"] / nv):
+                run.violation("pipeline:ext:force-routing", "%s: applied force %r, n_v*k*(x_ext-x)+fb_actual = %r; force on the extended coordinate %r, fb/n_v = %r"
+                              % (where, iv["f"], nv * iv["extk"] * (iv["xr"] - iv["xa"]) + iv["fba"], iv["fr"], iv["fb"] / nv), rep())
+                return
+    sAB, sA, sB, s0 = (R[x]["steps"] for x in ("AB", "A", "B", "0"))
+    n = min(first_error(x) for x in (sAB, sA, sB, s0))
+    for s in range(n):
+        fab, fa, fb_, f0 = (atomf(x[s], sc["natoms"]) for x in (sAB, sA, sB, s0))
+        for a in range(sc["natoms"]):
+            for q in range(3):
+                if not close(fab[a][q] - fb_[a][q], fa[a][q] - f0[a][q]):
+                    run.violation("pipeline:ext:bypass-superposition",
+                                  "scenario %d step %d: the walls add %r to the force on atom %d next to the restraint but %r on their own"
+                                  % (sc["id"], s, fab[a][q] - fb_[a][q], a + 1, fa[a][q] - f0[a][q]),
+                                  replay_of(sc, dict(sc["_subsets"]), {"step_index": s}))
+                    return
+
+
 def coupling_scenario(r, k):
     """lagged engine forces that include the Colvars forces, a one-atom distanceZ variable with subtractAppliedForce and
     outputTotalForce, two restraints: the total force reported at step t+1 must be the engine's own force of step t,
@@ -808,11 +876,13 @@ def run_batch(unit, model, scs, d):
             subsets["B"] = sc["B"]
         else:
             subsets = {"A": sc["A"]}
+        if sc.get("zero_run"):
+            subsets["0"] = []
         sc["_subsets"] = subsets
         for t, sub in subsets.items():
             tag = "%d:%s" % (sc["id"], t)
             L += scenario_lines(sc, sub, tag)
-            if all(sc["biases"][j]["kind"] != "F" for j in sub):
+            if all(sc["biases"][j]["kind"] != "F" for j in sub) and sc["family"] != "ext":
                 M.append(model_case(sc, sub))
                 keys.append(tag)
     rc, out, err = V.run_lines(unit, L, timeout=1200, cwd=d)
@@ -860,6 +930,9 @@ def check(run):
     for _ in range(n_cp):
         scs.append(coupling_scenario(r, k))
         k += 1
+    for _ in range(12 if quick else 300):
+        scs.append(ext_scenario(r, k))
+        k += 1
 
     # batches keep the harness input small
     BATCH = 200
@@ -896,7 +969,7 @@ def check(run):
                 if tag in mod:
                     msteps = parse_model_line(mod[tag], sc["natoms"])
                     compare_model(run, sc, t, sub, msteps, isteps)
-                if sc["family"] != "nonbiasing":
+                if sc["family"] not in ("nonbiasing", "ext"):
                     oracle_spec(run, sc, t, sub, isteps)
                     w = oracle_impulse(run, sc, t, sub, isteps)
                     windows += w
@@ -906,9 +979,12 @@ def check(run):
                 if t in ("AB",) and any(sum(b["act"] for b in stp["B"]) >= 2 for stp in isteps):
                     nontriv = True
             if "AB" in R:
-                oracle_superposition(run, sc, R)
+                if sc["family"] != "ext":     # on an extended variable the spring force is in every run: O8 instead
+                    oracle_superposition(run, sc, R)
                 if sc["family"] == "nonbiasing":
                     oracle_nonbiasing(run, sc, R)
+                if sc["family"] == "ext":
+                    oracle_ext(run, sc, R)
                 if sc["family"] == "coupling":
                     # second model pass: tf_trace on the system forces and the applied forces of the pipeline model
                     tl, tk = [], []
